@@ -231,6 +231,13 @@ class Context:
         if d is None:
             d = {'raises': True, 'returns': Ty('Opaque')}
         self.opaque_seen.add(('method', key))
+        if d.get('pure') and isinstance(recv, VOpaque) and not args and d.get('returns') is not None:
+            # a getter: its result is a function of the receiver (same object, same answer)
+            rt = d['returns']
+            f = self.uf('getter.' + key, T.Obj, self.sort_of(rt))
+            res = self.from_term(I, f(recv.t), rt)
+            I.emit(d.get('event', key), [recv], kwargs, res)
+            return res
         return I.opaque_call(d.get('event', key), [recv] + list(args), kwargs, node, d)
 
     def is_dropped_stmt(self, I, node, frame):
@@ -430,7 +437,41 @@ class Context:
         raise Unsupported('deepcopy', node)
 
     def event_seq_theory(self, name):
+        k = self.registry.event_sorts.get(name)
+        if k == 'obj' or (k is None and name.startswith('call:')):
+            return T.SeqO
         return T.SeqS
+
+    EVENT_FORMS = ('events', 'n_events', 'event_arg', 'event_result', 'at_event')
+
+    def contract_event_names(self, contract):
+        """Event names a contract speaks about (syntactic), incl. those of helper functions it calls."""
+        names = set()
+        seen = set()
+
+        def scan(node):
+            for n in ast.walk(node):
+                if isinstance(n, ast.Call) and isinstance(n.func, ast.Name):
+                    if n.func.id in self.EVENT_FORMS and n.args and isinstance(n.args[0], ast.Constant):
+                        names.add(n.args[0].value)
+                    elif n.func.id in self.registry.helpers and n.func.id not in seen:
+                        seen.add(n.func.id)
+                        scan(self.registry.helpers[n.func.id][0])
+                    elif n.func.id == 'propagates' and n.args and isinstance(n.args[0], ast.Constant):
+                        names.add(n.args[0].value)
+        scan(contract.node)
+        for c in contract.of('emits'):
+            for a in c.args:
+                names.add(a.value)
+        names.discard('*')
+        return sorted(names)
+
+    def callee_trace(self, I, contract):
+        out = []
+        for n in self.contract_event_names(contract):
+            th = self.event_seq_theory(n)
+            out.append(GhostSeg(n, VSeq(I.fresh('ev_' + n.replace(':', '_').replace('.', '_'), th.sort), 'list', th, ekind='bytes')))
+        return out
 
     # ---- dicts ----------------------------------------------------------------------------------------------
     def _dkey_eq(self, I, k1, k2, node):
@@ -466,7 +507,7 @@ class Context:
         if m.vkind == 'int':
             return VInt(t)
         if m.vkind == 'obj':
-            return VOpaque(t)
+            return VOpaque(t, getattr(m, 'vlabel', ''))
         if callable(m.vkind):
             return m.vkind(I, t)
         raise Unsupported('map value kind %r' % (m.vkind,))
@@ -691,7 +732,9 @@ class Context:
             return I.alloc(HDict(VMap(I.fresh(name, th.sort), th, 'str', 'str')))
         if n == 'DictStrObj':
             th = T.MapSO
-            return I.alloc(HDict(VMap(I.fresh(name, th.sort), th, 'str', 'obj')))
+            m = VMap(I.fresh(name, th.sort), th, 'str', 'obj')
+            m.vlabel = ty.args[0] if ty.args else ''
+            return I.alloc(HDict(m))
         for pl in self.plugins:
             r = pl.make_symbolic(I, ty, name)
             if r is not None:
@@ -957,10 +1000,20 @@ class Context:
             k = VInt(I.as_int(I.ev(node.args[1], frame))).const()
             j = VInt(I.as_int(I.ev(node.args[2], frame))).const() if len(node.args) > 2 else 0
             evs = [e for e in I.st.trace if isinstance(e, Event) and e.name == name]
-            if any(isinstance(e, GhostSeg) and e.name == name for e in I.st.trace):
-                raise Unsupported('event_arg() after a cut loop', node)
-            if k >= len(evs):
-                raise Unsupported('event_arg: fewer than %d events %s on this path' % (k + 1, name), node)
+            ghosts = [e for e in I.st.trace if isinstance(e, GhostSeg) and e.name == name]
+            if ghosts and not evs and len(ghosts) == 1:
+                g = ghosts[0]
+                if j == 0:
+                    return I.wrap_elem(g.seq, g.seq.th.Idx(g.seq.t, z3.IntVal(k)))
+                if j not in g.more:
+                    g.more[j] = VSeq(I.fresh('ev_%s_arg%d' % (name.replace(':', '_').replace('.', '_'), j), T.SeqO.sort), 'list', T.SeqO)
+                return VOpaque(T.SeqO.Idx(g.more[j].t, z3.IntVal(k)))
+            if ghosts:
+                raise Unsupported('event_arg() over a trace that mixes concrete and summarised events', node)
+            if k >= len(evs) or j >= len(evs[k].args):
+                # no such event on this path: an unconstrained value (the clause must also pin n_events)
+                self.qcount += 1
+                return VOpaque(z3.Const('missing-event!%d' % self.qcount, T.Obj), 'missing')
             return evs[k].args[j]
         if fn == 'attr':
             node_v = I.unwrap(I.ev(node.args[0], frame))
@@ -991,13 +1044,22 @@ class Context:
             k = VInt(I.as_int(I.ev(node.args[1], frame))).const()
             evs = [e for e in I.st.trace if isinstance(e, Event) and e.name == name]
             if k >= len(evs):
-                raise Unsupported('at_event: fewer than %d events %s on this path' % (k + 1, name), node)
+                self.qcount += 1
+                return VBool(z3.Const('missing-event-state!%d' % self.qcount, T.B))
             saved = I.st.heap
             I.st.heap = dict(evs[k].heap)
             try:
                 return I.ev(node.args[2], frame)
             finally:
                 I.st.heap = saved
+        if fn == 'getter':
+            name = self.const_str(I, I.ev(node.args[0], frame))
+            d = self.registry.externs.get(name) or {}
+            if not d.get('pure') or d.get('returns') is None:
+                raise Unsupported('getter(%s): not declared as a pure extern with a return type' % name, node)
+            recv = I.unwrap(I.ev(node.args[1], frame))
+            f = self.uf('getter.' + name, T.Obj, self.sort_of(d['returns']))
+            return self.from_term(I, f(self.obj_term(I, recv, node)), d['returns'])
         if fn == 'rep':
             e = I.as_int(I.ev(node.args[0], frame))
             n = I.as_int(I.ev(node.args[1], frame))
@@ -1048,7 +1110,16 @@ class Context:
             k = VInt(I.as_int(I.ev(node.args[1], frame))).const()
             evs = [e for e in I.st.trace if isinstance(e, Event) and e.name == name]
             if k >= len(evs):
-                raise Unsupported('event_result: fewer than %d events %s on this path' % (k + 1, name), node)
+                # no such event on this path: an unconstrained value of the declared type
+                d = self.registry.externs.get(name) or {}
+                for dd in list(self.registry.externs.values()) + list(self.registry.opaques.values()):
+                    if dd.get('event') == name:
+                        d = dd
+                self.qcount += 1
+                rt = d.get('returns') or Ty('Opaque')
+                saved = I.st.counter
+                v = self.make_symbolic(I, rt, 'missing_event_%d' % self.qcount)
+                return v
             return evs[k].result
         if fn == 'loop_k':
             if sp is None or sp.loop is None or sp.loop.get('k') is None:
@@ -1241,6 +1312,14 @@ class Context:
         pre = I.st.snapshot()
         entry_env = dict(env)
         callee = fi.qualname
+        caller_trace = I.st.trace
+        local_trace = self.callee_trace(I, contract)
+
+        def in_callee():
+            I.st.trace = list(local_trace)
+
+        def back():
+            I.st.trace = caller_trace + local_trace
         try:
             call_txt = ast.unparse(node)[:50] if node is not None else ''
         except Exception:
@@ -1273,34 +1352,33 @@ class Context:
                 takes = I.branch(I.fresh_bool('raises_%s' % callee.replace('.', '_')))
             if takes:
                 self.apply_modifies(I, contract, env)
+                in_callee()
                 if 'ensures' in kw:
                     v = self.eval_spec(I, kw['ensures'], env, contract.sidecar, pre, entry_env)
                     I.assume(I.truthy(v))
+                back()
                 raise PyExc(VExc(ename.split('.')[-1] if ename.split('.')[-1] in BUILTIN_EXC else ename, origin='contract of ' + callee))
         for k, c in enumerate(contract.of('propagates')):
             kw = {x.arg: x.value for x in c.keywords}
             name = c.args[0].value
             if I.branch(I.fresh_bool('prop_%s' % name)):
                 self.apply_modifies(I, contract, env)
-                for e in c.args[1:]:
-                    pass
+                in_callee()
                 if 'ensures' in kw:
                     v = self.eval_spec(I, kw['ensures'], env, contract.sidecar, pre, entry_env)
                     I.assume(I.truthy(v))
+                back()
                 raise PyExc(VExc('opaque:' + name, origin=name))
         # frame + result
         self.apply_modifies(I, contract, env)
-        for c in contract.of('emits'):
-            for a in c.args:
-                th = self.event_seq_theory(a.value)
-                g = VSeq(I.fresh('ev_' + a.value, th.sort), 'list', th, ekind='bytes')
-                I.st.trace.append(GhostSeg(a.value, g))
         res = NONE
         if contract.ret is not None and contract.ret.name != 'NoneT':
             res = self.make_symbolic(I, contract.ret, 'r_' + fi.name)
+        in_callee()
         for c in contract.of('ensures'):
             v = self.eval_spec(I, c.args[0], env, contract.sidecar, pre, entry_env, result=res, has_result=True)
             I.assume(I.truthy(v))
+        back()
         return res
 
     def check_arg_types(self, I, contract, env, node, tag):
@@ -1369,6 +1447,67 @@ class Context:
                         I.st.heap[obj.loc] = c.set(a.attr, self.loops.havoc_value(I, cur, a.attr))
                 else:
                     raise Unsupported('modifies clause form')
+
+    def check_frame(self, I, contract, env, pre, q):
+        """Frame obligations: what the contract does not list under modifies(...) is unchanged at normal exit
+        (a caller havocs only what is listed, so an unlisted change would be unsound at every call site)."""
+        mod = set()
+        for m in contract.of('modifies'):
+            for a in m.args:
+                mod.add(ast.unparse(a))
+
+        def same(cur_v, old_v, cur_heap, old_heap, path, depth):
+            if path in mod:
+                return
+            if isinstance(cur_v, VOpt):
+                cur_v = cur_v.val
+            if isinstance(old_v, VOpt):
+                old_v = old_v.val
+            if isinstance(old_v, VRef) and isinstance(cur_v, VRef):
+                oc, cc = old_heap.get(old_v.loc), cur_heap.get(cur_v.loc)
+                if isinstance(oc, HObj) and isinstance(cc, HObj):
+                    if depth >= 2:
+                        return
+                    for f, ov in oc.fields.items():
+                        if f in cc.fields:
+                            same(cc.fields[f], ov, cur_heap, old_heap, path + '.' + f, depth + 1)
+                    return
+                if isinstance(oc, HList) and isinstance(cc, HList):
+                    if oc is cc:
+                        return
+                    a = oc.content if isinstance(oc.content, VSeq) else I.list_to_seq(oc.content, oc.kind)
+                    b = cc.content if isinstance(cc.content, VSeq) else I.list_to_seq(cc.content, cc.kind)
+                    if a is None or b is None or a.th is not b.th:
+                        I.prove('%s:frame[%s]' % (q, path), 'frame', oc.content is cc.content, contract.node,
+                                detail='%s is modified but not listed under modifies(...)' % path)
+                    else:
+                        I.prove('%s:frame[%s]' % (q, path), 'frame', a.t == b.t, contract.node,
+                                detail='%s is modified but not listed under modifies(...)' % path)
+                    return
+                if isinstance(oc, HDict) and isinstance(cc, HDict):
+                    if oc is cc:
+                        return
+                    if isinstance(oc.content, VMap) and isinstance(cc.content, VMap):
+                        I.prove('%s:frame[%s]' % (q, path), 'frame', oc.content.t == cc.content.t, contract.node,
+                                detail='%s is modified but not listed under modifies(...)' % path)
+                    else:
+                        I.prove('%s:frame[%s]' % (q, path), 'frame', False, contract.node,
+                                detail='%s is modified (dict rebuilt) but not listed under modifies(...)' % path)
+                    return
+                return
+            if type(cur_v) is type(old_v) and isinstance(cur_v, (VInt, VBool, VSeq, VOpaque)):
+                if depth == 0:
+                    return          # a rebound parameter is local
+                t = getattr(cur_v, 't', None)
+                if t is not None and not z3.eq(t, old_v.t):
+                    I.prove('%s:frame[%s]' % (q, path), 'frame', cur_v.t == old_v.t, contract.node,
+                            detail='%s is modified but not listed under modifies(...)' % path)
+                return
+            if depth > 0 and (type(cur_v) is not type(old_v)) and not (isinstance(cur_v, VNone) and isinstance(old_v, VNone)):
+                I.prove('%s:frame[%s]' % (q, path), 'frame', False, contract.node,
+                        detail='%s changes its kind of value but is not listed under modifies(...)' % path)
+        for p, _ in contract.params:
+            same(env[p], env[p], I.st.heap, pre.heap, p, 0)
 
     def elem_hint(self, contract, pname):
         for p, ty in contract.params:
@@ -1652,6 +1791,7 @@ class Context:
             for k, c in enumerate(contract.of('ensures')):
                 v = self.eval_spec(I, c.args[0], env, contract.sidecar, pre, entry_env, result=result, has_result=True)
                 I.prove('%s:post#%d' % (q, k + 1), 'postcondition', I.truthy(v), c)
+            self.check_frame(I, contract, env, pre, q)
             for k, c in enumerate(contract.of('raises')):
                 kw = {x.arg: x.value for x in c.keywords}
                 if 'when' in kw and not any(x.arg == 'may' for x in c.keywords):
